@@ -110,6 +110,13 @@ MODEL = dict(
              constants=dict(_c, SchedOps={"E", "U0p"}, DPreds={"none", "E"}, Delays={0}, Min0=0, DTs={0}, ChkCtxs={"ext"}, Depth=4),
              thorough=dict(Depth=5, DTs={0, 1}),
              invariants=["NoViolation", "Refines"]),
+        # two ready operations consumed by one payload, executors configured: the executor's authorization is needed for
+        # each (context, descriptor) pair - complete, absent, or left out for the second pair only
+        dict(name="batch", module="MC_TimelockController",
+             constants=dict(_c, Execs0={"x"}, SchedOps={"U0", "U3"}, Calls=set(), ChkCtxs={"ud0", "ud0_ud3"}, MetaLens={1, 2},
+                            DExecs={"x"}, XAuths={"none", "x"}, DTs={1}, Depth=3),
+             thorough=dict(Depth=4, DTs={0, 1}), replay_all=True,
+             invariants=["NoViolation", "Refines"]),
         # vacuity guard: the pinned code (contexts zipped with descriptors, no length check)
         dict(name="nonvacuous", module="MC_TimelockController",
              constants=dict(_payload, Depth=2, BUG_C09_ZIP=True, Emit=False),
